@@ -44,7 +44,20 @@ def main():
         import exponax as ex
         from mc import catalog
 
-        if task.get("late_x64"):  # double precision switched on AFTER the library was imported ("once x64 is enabled")
+        if task.get("late_x64"):  # double precision switched on AFTER the library was imported AND used in single precision ("once x64 is enabled")
+            # history: single-precision use of the very same configurations first (anything memoised per resolution / contour size / class in
+            # the float32 phase must not leak into the double-precision phase), then the switch, then the audited double-precision run
+            warm = {"x64_before": bool(jax.config.jax_enable_x64)}
+            if task["kind"] == "stepper":
+                e0 = catalog.by_name()[task["entry"]]
+                D0, N0 = task["D"], task["N"]
+                L0, dt0 = (1.0, 1.0) if e0.fixed else (2.5, 0.05)
+                for order in ((0,) if e0.linear else (0, 1, 2, 3, 4)):
+                    st0 = e0.build(ex, jnp, D0, N0, L0, dt0, order)
+                    y0 = st0(jnp.asarray(catalog.smooth_states(D0, N0, e0.channels(D0), task["seed"], count=1, amp=e0.amp)[0]))
+                    warm["warm_dtype"] = str(y0.dtype)
+            elif task["kind"] == "etdrk":
+                ex.etdrk.ETDRK2(0.1, jnp.asarray(z_lattice() / 0.1)[None, :], ex.nonlin_fun.PolynomialNonlinearFun(1, 4, coefficients=(0.0, 1.0)))
             jax.config.update("jax_enable_x64", True)
         out = {"x64": bool(jax.config.jax_enable_x64), "default_float": str(jnp.zeros(1).dtype), "items": []}
         if task["kind"] == "etdrk":
